@@ -76,7 +76,14 @@ Log(a) == /\ last' = a /\ prev' = abs /\ steps' = steps + 1
 -----------------------------------------------------------------------------
 (* CONNECT accepted (3.1, 3.2): session lookup, CONNACK with SessionPresent, stored
    subscriptions active again before anything else is processed.                        *)
-Connect(c, k, clean, will) ==
+\* the forms an acceptable CONNECT can take on the wire without meaning anything different (3.1.2, 3.1.3): keep-alive 0
+\* ("none": the broker applies its default), with or without user name and password, either of them of length zero;
+\* and a zero-length client identifier, acceptable with CleanSession 1: the broker assigns an identifier nobody else
+\* has (3.1.3-6), which the caller expresses by a key k no other connection uses
+ConnectForms == {"plain", "ka0", "nouser", "emptyuser", "emptypass", "userpass", "ka0-nouser", "ka0-emptyuser", "ka0-emptypass"}
+AnonForms == {"anon", "anon-nouser", "anon-emptyuser", "anon-ka0-emptyuser"}
+ConnectF(c, k, clean, will, form) ==
+  /\ form \in ConnectForms \cup AnonForms /\ (form \in AnonForms => clean)
   /\ c \in Conns /\ conn[c].st = "free"
   /\ \A d \in Conns : Up(d) => conn[d].cid # k           \* no take-over in the library; no property asks for it
   /\ LET present == ~clean /\ sess[k].ex
@@ -86,7 +93,8 @@ Connect(c, k, clean, will) ==
         /\ out' = Grp(O0, c, {Connack(present, 0)})
   /\ conn' = [conn EXCEPT ![c] = [st |-> "up", cid |-> k, clean |-> clean, will |-> will]]
   /\ UNCHANGED <<ret, closed>>
-  /\ Log([a |-> "connect", c |-> c, k |-> k, clean |-> clean, will |-> [will EXCEPT !.t = Join(will.t)]])
+  /\ Log([a |-> "connect", c |-> c, k |-> k, clean |-> clean, will |-> [will EXCEPT !.t = Join(will.t)], form |-> form])
+Connect(c, k, clean, will) == ConnectF(c, k, clean, will, "plain")
 
 (* A first packet that is not an acceptable CONNECT (3.1.4, 3.2.2.3): CONNACK with the
    refusal code where there is one, connection closed, nothing else changes.
